@@ -8,6 +8,7 @@ Import ListNotations.
 From LinDBV.C04 Require Import Model.
 From LinDBV.C03 Require Import Model.
 From LinDBV.C12 Require Import Model Check.
+From LinDBV.C11 Require Overlap.
 Open Scope Z_scope.
 
 (* one node, one shard *)
@@ -61,5 +62,23 @@ Definition check_query (pts : list point) (q : query) (o : obs) : nat * nat :=
           | [] => 0%nat
           | _ => if existsb (fun e => commutative_type (k_agg (item_key q e))) diff then 150%nat else 151%nat
           end
+    end in
+  (c, orc).
+
+(* ---- a statement answered while the data family is being flushed (C11/Overlap.v): the schedule of the query's two
+   reads against the flush's three steps decides whether the flushed memory database is aggregated twice ---- *)
+Definition doubled (sched : list Overlap.ev) : bool :=
+  match Overlap.qview (Overlap.run Overlap.init (Overlap.EWrite 1 :: sched)) with
+  | Some (_ :: _ :: _) => true
+  | _ => false
+  end.
+Definition check_overlap (pts : list point) (q : query) (sched : list Overlap.ev) (o : obs) : nat * nat :=
+  let seen := if doubled sched then pts ++ pts else pts in
+  let model := asis (one_node pts (q_metric q)) seen q in
+  let c := if q_agree seen q model o then 0%nat else 1%nat in
+  let orc :=
+    match o with
+    | OErr _ => match reference pts q with [] => 0%nat | _ => 102%nat end
+    | ORes b => if same_entries (reference pts q) b then 0%nat else if doubled sched then 160%nat else 101%nat
     end in
   (c, orc).
